@@ -673,6 +673,15 @@ impl<'a, 'w> Runner<'a, 'w> {
                         }
                     });
                 }
+                Op::DupRetained(i) => {
+                    let src = tls::with(|ts| if ts.retained.is_empty() { None } else { Some(snap(&ts.retained[*i % ts.retained.len()])) });
+                    if let Some(sn) = src {
+                        if !sn.has_multi_key_map() {
+                            let copy = rebuild_from_snap(&sn);
+                            self.retain(copy, idx);
+                        }
+                    }
+                }
                 Op::MutateRetained(i) => {
                     let new_snap = tls::with(|ts| {
                         if ts.retained.is_empty() {
